@@ -160,6 +160,10 @@ void harness(void) {
   }
   econf_err expect = nseq == 0 ? ECONF_NOFILE : fail_at >= 0 ? fail_code : ECONF_SUCCESS;
 
+#ifdef SETCONF
+  /* the process-wide drop-in directory list (econf_set_conf_dirs) replaces the default "<suffix>.d" */
+  { const char *lst[2] = { SETCONF, NULL }; CHECK(econf_set_conf_dirs(lst) == ECONF_SUCCESS, "set process-wide drop-in list"); }
+#endif
   /* ---- call ---- */
   econf_file **hist = NULL; size_t hsize = 77; econf_file *res = NULL; econf_err e;
   const char *d0 = VP(ldirs[0]), *d1 = VP(ldirs[nl - 1]);
